@@ -708,9 +708,9 @@ def make_passes(spec):
     layout = GeneralizedSabreLayoutPass(spec['layout'], **kwl) if spec['layout'] else None
     routing = GeneralizedSabreRoutingPass(**kw)
     if spec.get('adv'):
-        adversarial_heuristic(routing, spec['seed'] + 11)
+        adversarial_heuristic(routing, spec['seed'] + 11, spec['adv'])
         if layout is not None:
-            adversarial_heuristic(layout, spec['seed'] + 12)
+            adversarial_heuristic(layout, spec['seed'] + 12, spec['adv'])
     return placement, layout, routing
 
 
@@ -719,7 +719,7 @@ def params_kw(pr):
                 extended_set_size=pr[3], extended_set_weight=pr[4])
 
 
-def adversarial_heuristic(p, seed):
+def adversarial_heuristic(p, seed, mode='random'):
     """Replace the SCORE of a candidate swap (and nothing else) by a seeded random number on
     the pass instance.  Which swap the heuristic picks is exactly what the Lean machine
     abstracts (it accepts every swap on an edge), and the theorems hold for every choice; with
@@ -729,7 +729,28 @@ def adversarial_heuristic(p, seed):
     forward_pass / backward_pass, _can_exe, _obtain_swaps, _apply_swap, _uphill_swaps, the
     leading_swaps bookkeeping and the circuit surgery are the unchanged real code."""
     rnd = random.Random(seed)
-    p._score_swap = lambda *a, **k: rnd.random()
+    if mode == 'random':
+        p._score_swap = lambda *a, **k: rnd.random()
+        return
+
+    def stall(circuit, F, pi, D, swap, decay, E):
+        """prefer swaps after which still no front operation is executable: the pass then
+        piles up leading swaps until the local-minimum branch fires (for every gate that
+        needs routing, when the graph has room to wander)"""
+        pi2 = [swap[1] if x == swap[0] else swap[0] if x == swap[1] else x for x in pi]
+        for pt in F:
+            ph = [pi2[q] for q in circuit[pt].location]
+            seen, todo = {ph[0]}, [ph[0]]
+            while todo:
+                v = todo.pop()
+                for u in ph:
+                    if u not in seen and D[v][u] == 1:
+                        seen.add(u)
+                        todo.append(u)
+            if len(seen) == len(ph):
+                return 1.0 + rnd.random()
+        return rnd.random()
+    p._score_swap = stall
 
 
 def run_case(spec):
@@ -1151,15 +1172,16 @@ def gen_specs(rng, thorough):
     # (E) adversarial heuristic: the score of a candidate swap is replaced by a seeded random
     # number (see adversarial_heuristic): backtracking + uphill swaps in small cases
     for i in range(cnt(1500 if thorough else 50)):
-        n = rng.randint(2, 6)
-        N = rng.randint(max(n, 3), 8)
+        n = rng.randint(3, 6)
+        N = rng.randint(n, 8)
         fam = SPARSE[i % len(SPARSE)]
         s = mk(n, N, random_connected_graph(rng, N, fam), nops=rng.randint(3, 30),
-               radix=2, partition=None, params=rand_params(rng, reset_on_gate=bool(i % 2)))
+               radix=2, partition=None, params=rand_params(rng, reset_on_gate=bool(i % 2)),
+               placement=rng.choice(['greedy', 'custom', 'static']))
         if i % 3 == 0 and n >= 4:
             s['kinds'] = rng.choice(['2245B', '122345B'])
         s['family'] = fam
-        s['adv'] = True
+        s['adv'] = 'stall' if (i // 2) % 3 else 'random'
         specs.append(s)
     # witnesses of the known finding `extended-set-search-revisits-points-exponentially`
     for key in ('params', 'lparams'):
@@ -1180,7 +1202,11 @@ def gen_specs(rng, thorough):
         s2 = dict(s)
         s2['looping_prefix'] = True
         s2['seed'] = s['seed'] + 1
-        s2['params'] = rand_params(rng, reset_on_gate=False)
+        # the circuits are a trap for the STANDARD heuristic (look-ahead on, small decay): keep
+        # that, vary the rest
+        for t in (s, s2):
+            t['params'] = [rng.choice([0.001, 0.0]), rng.choice([5, 3, 50]), t is s,
+                           rng.choice([20, 5]), rng.choice([0.5, 1.0, 0.25])]
         specs.append(s2)
     # (G) permutation-aware mapping, fabricated exact permutation data
     for i in range(cnt(1500 if thorough else 60)):
@@ -1189,7 +1215,6 @@ def gen_specs(rng, thorough):
         s = mk(n, N, random_connected_graph(rng, N), nops=rng.randint(3, 14),
                kinds='12222', radix=2, partition=None,
                placement=rng.choice(['greedy', 'custom']), layout=rng.choice([None, 1, 2]))
-        s['im0'], s['fm0'] = list(range(n)), list(range(n))
         s.update(radix=2, partition=None, kinds='12222')
         s.update(pam=True, source='fab', block=rng.choice([2, 2, 3]),
                  gcw=rng.choice(P_GCW), barrier_p=rng.choice([0.0, 0.25, 0.25]))
@@ -1203,7 +1228,8 @@ def gen_specs(rng, thorough):
             s['nops'] = rng.randint(30, 60)
             s['params'] = rand_params(rng, reset_on_gate=False)
         if i % 5 == 4:
-            s['adv'] = True
+            s['adv'] = 'stall' if (i // 5) % 2 else 'random'
+            s['nops'] = min(s['nops'], 20)
         specs.append(s)
     # PAM on qutrits (pam.py inserts SwapGate() where sabre.py inserts SwapGate(radix))
     for _ in range(cnt(60 if thorough else 6)):
@@ -1449,7 +1475,7 @@ def run(ck: Check):
         if not spec.get('pam'):
             ck.bump('graph_family', spec.get('family', 'enumerated' if spec['N'] <= 5
                                              else 'seeded'))
-        ck.bump('heuristic', 'adversarial(random score)' if spec.get('adv') else 'real')
+        ck.bump('heuristic', f'adversarial({spec["adv"]})' if spec.get('adv') else 'real')
         pr_, lp_ = spec['params'], spec.get('lparams') or spec['params']
         for nm, i_ in (('decay_delta', 0), ('decay_reset_interval', 1),
                        ('decay_reset_on_gate', 2), ('extended_set_size', 3),
